@@ -98,7 +98,8 @@ def _yes(value):
 RAW = {
     'P1': ({'x-one': r'{int}', 'x-len': r'{length}|auto', 'x-col': r'{color}', 'x-fn': _yes}, {}),  # new properties
     'P2': ({'color': r'abc|{namedcolor}', 'width': r'wide|{length}', 'x-fn': r'boom|maybe'}, {}),  # redefines existing properties (and one of P1: a function there)
-    'P3': ({'x-three': r'{int}|{m3}'}, {'int': r'q\d+', 'm3': r't'}),  # overrides a token macro
+    # overrides a token macro, and uses a standard macro ({integer} = {int}) that is built from it
+    'P3': ({'x-three': r'{int}|{m3}', 'x-three-i': r'{integer}|none', 'x-three-c': r'{color}'}, {'int': r'q\d+', 'm3': r't'}),
     'P4': ({'x-four': r'{length}'}, {'length': r'0|{num}zz'}),  # overrides a general macro
     'P5': ({'x-five': r'{m5}', 'x-five-n': r'{m5}{int}'}, {'m5': r'a|b'}),  # private macro
     'P6': ({'x-six': r'{m5}x'}, {'m5': r'c'}),  # overrides the macro of P5
@@ -123,7 +124,8 @@ BATTERY = [
     ('x-len', '1px'), ('x-len', '1zz'), ('x-len', 'auto'),
     ('x-col', 'red'), ('x-col', 'currentcolor'), ('x-col', 'rgba(1,2,3,.5)'),
     ('x-fn', 'yes'), ('x-fn', 'no'), ('x-fn', 'boom'), ('x-fn', 'maybe'),
-    ('x-three', '1'), ('x-three', 'q1'), ('x-three', 't'),
+    ('x-three', '1'), ('x-three', 'q1'), ('x-three', 't'), ('x-three-i', '1'), ('x-three-i', 'q1'), ('x-three-i', 'none'),
+    ('x-three-c', 'red'), ('x-three-c', 'rgb(1,2,3)'), ('x-three-c', 'rgb(q1,q2,q3)'),
     ('x-four', '1px'), ('x-four', '1zz'),
     ('x-five', 'a'), ('x-five', 'c'), ('x-five-n', 'a1'), ('x-five-n', 'cq1'),
     ('x-six', 'ax'), ('x-six', 'cx'),
